@@ -37,8 +37,9 @@ from pysph.base.particle_array import ParticleArray  # noqa: E402
 from pysph.base.kernels import CubicSpline  # noqa: E402
 from pysph.sph import equation as EQ  # noqa: E402
 from pysph.sph.equation import (Equation, Group, BasicCodeBlock,  # noqa: E402
-                                Context)
-from pysph.sph.acceleration_eval import AccelerationEval  # noqa: E402
+                                Context, MultiStageEquations)
+from pysph.sph.acceleration_eval import (AccelerationEval,  # noqa: E402
+                                         make_acceleration_evals)
 from pysph.sph.acceleration_eval_cython_helper import (  # noqa: E402
     AccelerationEvalCythonHelper)
 from pysph.sph.integrator_cython_helper import (  # noqa: E402
@@ -304,6 +305,34 @@ def real_accesses(a_eval, helper):
     return sorted(acc)
 
 
+RE_DST_IS = re.compile(r'^dst = self\.(\w+)$')
+RE_SRC_IS = re.compile(r'^src = self\.(\w+)$')
+
+
+def code_accesses(code):
+    """(array, property) pointers in the rendered Cython source itself"""
+    acc = set()
+    dst = src = None
+    for ln in code.split('\n'):
+        ln = ln.strip()
+        m = RE_DST_IS.match(ln)
+        if m:
+            dst = m.group(1)
+            continue
+        m = RE_SRC_IS.match(ln)
+        if m:
+            src = m.group(1)
+            continue
+        m = RE_DST_LINE.match(ln)
+        if m:
+            acc.add((dst, m.group(2)))
+            continue
+        m = RE_SRC_LINE.match(ln)
+        if m:
+            acc.add((src, m.group(2)))
+    return sorted(acc)
+
+
 def real_stepper_accesses(ih):
     acc = set()
     for m in ih.get_stepper_method_wrapper_names():
@@ -337,7 +366,13 @@ def run_impl(case):
             sig.append({'name': o.name, 'dest': o.dest, 'sources': o.sources,
                         'methods': d})
         out['sig'] = sig
-        structure = build_structure(case, objs)
+        try:
+            with quiet():
+                structure = build_structure(case, objs)
+        except Exception as e:      # noqa  (Group(...) itself failed)
+            out['eq'] = ['exception', type(e).__name__, str(e)[:200]]
+            out['ssig'] = []
+            return out
         steppers = build_steppers(case, mod)
         ssig = []
         for dest, o in steppers:
@@ -351,9 +386,19 @@ def run_impl(case):
                          'py': py})
         out['ssig'] = ssig
         a_eval = None
+        a_evals = []
         with quiet():
             try:
-                a_eval = AccelerationEval(pas, structure, KERNEL)
+                k = case.get('stages')
+                if k and structure and isinstance(structure[0], Group):
+                    n = len(structure)
+                    chunks = [structure[i * n // k:(i + 1) * n // k]
+                              for i in range(k)]
+                    a_evals = make_acceleration_evals(
+                        pas, MultiStageEquations(chunks), KERNEL)
+                else:
+                    a_evals = [AccelerationEval(pas, structure, KERNEL)]
+                a_eval = a_evals[0]
                 out['eq'] = ['ok']
             except RuntimeError as e:
                 out['eq'] = parse_eq_error(str(e))
@@ -361,8 +406,16 @@ def run_impl(case):
                 out['eq'] = ['exception', type(e).__name__, str(e)[:200]]
         if a_eval is None:
             return out
-        helper = AccelerationEvalCythonHelper(a_eval)
-        out['access'] = real_accesses(a_eval, helper)
+        try:
+            helper = AccelerationEvalCythonHelper(a_eval)
+            acc = set(real_accesses(a_eval, helper))
+            for ae in a_evals[1:]:
+                acc |= set(real_accesses(ae, AccelerationEvalCythonHelper(ae)))
+            out['access'] = sorted(acc)
+        except Exception as e:      # noqa
+            out['access'] = None
+            out['access_error'] = '%s: %s' % (type(e).__name__, str(e)[:200])
+            return out
         if case.get('steppers') is None:
             return out
         integ = EulerIntegrator(**dict(steppers))
@@ -370,9 +423,10 @@ def run_impl(case):
         with quiet():
             try:
                 if case.get('full'):
-                    comp = SPHCompiler(a_eval, integ)
+                    comp = SPHCompiler(a_evals, integ)
                     code = comp._get_code()
                     out['code_len'] = len(code)
+                    out['code_access'] = code_accesses(code)
                     ih = comp.integrator_helper
                 else:
                     ih = IntegratorCythonHelper(integ, helper)
@@ -896,6 +950,46 @@ def gen_shipped_case(rng, cls, mode):
     return case
 
 
+def gen_shipped_exhaustive(rng, cls):
+    """the property's quantifier, literally: one shipped class x every name
+    it needs (explicitly or implicitly) x removal from the destination (which
+    is also the first source) or from the second source"""
+    import copy
+    spec = '%s:%s' % (cls.__module__, cls.__name__)
+    names = ['fluid', 'solid']
+    base = {'table': None, 'arrays': [], 'steppers': None, 'full': False,
+            'eqs': [{'shipped': spec, 'dest': 'fluid',
+                     'sources': ['fluid', 'solid']}],
+            'structure': [['F', [0]]], 'label': 'shipped-eq:exhaustive'}
+    tcode = real_tcode()
+    view = oracle_view(base)
+    base['arrays'], need = complete_arrays(rng, view, names, tcode,
+                                           extra=False)
+    out = []
+    for k, a in enumerate(names):
+        for n in sorted(need[a]):
+            if n in DEFAULT_PROPS:
+                continue
+            c = copy.deepcopy(base)
+            for key in ('props', 'consts'):
+                if n in c['arrays'][k][key]:
+                    c['arrays'][k][key].remove(n)
+            out.append(c)
+    return out
+
+
+def gen_stepper_exhaustive(rng, cls):
+    import copy
+    base = gen_shipped_stepper_case(rng, cls, 'none')
+    base['label'] = 'shipped-stepper:exhaustive'
+    out = []
+    for n in list(base['arrays'][0]['props']):
+        c = copy.deepcopy(base)
+        c['arrays'][0]['props'].remove(n)
+        out.append(c)
+    return out
+
+
 def rand_eq(rng, k, names, syms, table_keys):
     ms = {}
     have = rng.sample(METHODS, rng.choice([1, 1, 2, 3]))
@@ -1016,6 +1110,9 @@ def gen_synth_case(rng, mode, synth_table=False, with_steppers=False):
                 case['label'] = 'synth:complete'
     else:
         case['label'] = 'synth:' + perturb(rng, case, view, need, mode)
+    if rng.random() < 0.15 and case['structure'][0][0] != 'L':
+        case['stages'] = rng.choice([2, 3])
+        case['label'] += '+multistage'
     if rng.random() < 0.04 and len(case['arrays']) > 1:
         # two arrays with the same name: the later one wins
         case['arrays'][0]['name'] = case['arrays'][1]['name']
@@ -1145,6 +1242,9 @@ def check_case(case, impl, lines, mod, R, may_sample):
                    'AccelerationEval verdict')
         if m_orig == impl['eq']:
             R.count('impl-behaves-like-unrepaired-checker')
+    if impl.get('access_error'):
+        R.disagree({'case': case, 'line': lines[1]}, m_acc,
+                   impl['access_error'], 'code generator helper raised')
     if impl['access'] is not None:
         ia = [tuple(x) for x in impl['access']]
         if m_acc != ia:
@@ -1162,6 +1262,16 @@ def check_case(case, impl, lines, mod, R, may_sample):
             if got != want:
                 R.disagree({'case': case, 'line': lines[2]}, got, want,
                            'stepper verdict')
+            if impl.get('code_access') is not None and \
+                    impl['saccess'] is not None and not case.get('stages'):
+                both = sorted(set(tuple(x) for x in impl['access']) |
+                              set(tuple(x) for x in impl['saccess']))
+                ca = [tuple(x) for x in impl['code_access']]
+                R.count('rendered-source-scanned')
+                if ca != both:
+                    R.disagree({'case': case}, both, ca,
+                               'pointers in the rendered Cython source vs '
+                               'helper methods')
             if impl['saccess'] is not None:
                 isa = [tuple(x) for x in impl['saccess']]
                 if m_sacc != isa:
@@ -1177,6 +1287,8 @@ def check_case(case, impl, lines, mod, R, may_sample):
         R.count('stepper-verdict:' + impl['step'][0])
     if case.get('full'):
         R.count('through-SPHCompiler._get_code')
+    if case.get('stages'):
+        R.count('through-make_acceleration_evals(MultiStageEquations)')
     nontrivial = bool(case['arrays']) and any(
         any(a.startswith(('d_', 's_')) or a in dict(impl['table_code'])
             for args in e['methods'].values() for a in args)
@@ -1202,8 +1314,14 @@ def closure_tie(rng, R, n):
             T = 'T=' + wire_table([[k, sorted(cb.symbols)]
                                    for k, cb in tbl.items()])
             objs = build_eqs(case, mod)
-            g = Group(objs)
-            s, d = g.get_array_names()
+            try:
+                g = Group(objs)
+                s, d = g.get_array_names()
+                pk = sorted(g.precomputed.keys())
+            except Exception as e:      # noqa
+                R.disagree({'case': case}, 'a group', 'exception %s: %s' % (
+                    type(e).__name__, str(e)[:200]), 'Group(...) raised')
+                continue
             sig = []
             for o in objs:
                 dd = {m: list(getfullargspec(getattr(o, m)).args)
@@ -1215,7 +1333,7 @@ def closure_tie(rng, R, n):
                 if hasattr(o, 'loop'):
                     la += getfullargspec(o.loop).args
             lines.append('closure %s L=%s' % (T, nl(dict.fromkeys(la))))
-            wants.append(('clo', sorted(g.precomputed.keys()), case))
+            wants.append(('clo', pk, case))
             lines.append('needs %s Q=%s' % (T, wire_eqs(sig)))
             wants.append(('needs', (sorted(s), sorted(d)), case))
     out = H.run_model('C20', lines)
@@ -1280,6 +1398,12 @@ def main():
         for mode in ['none', 'remove', 'misspell'] + (
                 [] if quick else ['remove'] * 4):
             cases.append(gen_shipped_stepper_case(rng, cls, mode))
+    # exhaustive removal: every class in the thorough tier, a seeded sample of
+    # the classes in the quick tier
+    for cls in (rng.sample(eqs, 40) if quick else eqs):
+        cases += gen_shipped_exhaustive(rng, cls)
+    for cls in (rng.sample(sts, 8) if quick else sts):
+        cases += gen_stepper_exhaustive(rng, cls)
     nsyn = 250 if quick else 4000
     modes = ['none', 'implicit', 'explicit', 'any', 'any', 'misspell-dest',
              'misspell-source']
